@@ -128,12 +128,28 @@ pub fn variants(base: &Cfg) -> Vec<Cfg> {
     let Base::Bytes(img0) = &*base.base else { unreachable!() };
     let g = vol::geo_of(img0);
     for status in [0u8, 1] {
-        let frees: Vec<(&str, Option<u32>)> =
-            if g.width == 32 { vec![("exact", None), ("nofree", Some(0xFFFF_FFFF)), ("toolarge", Some(g.clusters as u32 + 7))] } else { vec![("", None)] };
-        for (n, f) in frees {
+        // fs-info variants: (name, free count, next-free hint)
+        let last = g.clusters as u32 + 1;
+        let frees: Vec<(&str, Option<u32>, Option<u32>)> = if g.width == 32 {
+            vec![
+                ("exact", None, None),
+                ("nofree", Some(0xFFFF_FFFF), None),
+                ("toolarge", Some(g.clusters as u32 + 7), None),
+                ("hint-past-end", None, Some(last + 1)),
+                ("hint-far-past-end", None, Some(0x0FFF_FFF0)),
+                ("hint-reserved-1", None, Some(1)),
+                ("hint-unset", None, Some(0xFFFF_FFFF)),
+            ]
+        } else {
+            vec![("", None, None)]
+        };
+        for (n, f, h) in frees {
+            if status == 1 && n.starts_with("hint") {
+                continue;
+            }
             let mut img = img0.clone();
             vol::set_status(&mut img, status);
-            vol::set_fsinfo(&mut img, f, None);
+            vol::set_fsinfo(&mut img, f, h);
             let mut c = base.clone();
             c.base = Arc::new(Base::Bytes(img));
             c.name = format!("{}-st{}{}{}", base.name, status, if n.is_empty() { "" } else { "-" }, n);
